@@ -4,10 +4,11 @@
    call (spec).  Known classes (KNOWN_FINDINGS.txt): 1 = a failed annotate leaves new text
    selections behind, 2 = a failed annotate / insert_data leaves datasets, keys or data
    behind, 3 = both, 4 = a failed batch keeps its earlier elements (possibly with 1-3).
-   operations as in Run/StoreRun.v plus (12 (id target datas) ...) = annotate_from_iter. *)
+   operations as in Run/StoreRun.v plus (12 (id target datas) ...) = annotate_from_iter and
+   (13 id (dbuild ...)) = add_dataset with data items (the set reference of the builders is ignored). *)
 From Coq Require Import List ZArith Bool Arith.
 Import ListNotations.
-From Stam Require Import Base.Sx Model.Offset Model.Store Model.StoreObs Spec.StoreSpec Run.StoreRun.
+From Stam Require Import Base.Sx Model.Offset Model.Store Model.StoreExt Model.StoreObs Spec.StoreSpec Run.StoreRun.
 
 Definition abuild_of_sx (x : sx) : abuild :=
   mkab (sx_onat (sx_nth 0 x))
@@ -71,6 +72,8 @@ Fixpoint run_ops (s : store) (xs : list sx) : list sx :=
       let '(s', r, done) :=
         if Z.eqb (sx_Z (sx_nth 0 x)) 12
         then annotate_batch s (map abuild_of_sx (tl (sx_list x)))
+        else if Z.eqb (sx_Z (sx_nth 0 x)) 13
+        then let '(s1, r1) := add_set_with s (sx_nat (sx_nth 1 x)) (map dbuild_of_sx (sx_list (sx_nth 2 x))) in (s1, r1, 0)
         else let '(s1, r1) := step s (op_of_sx x) in (s1, r1, 0) in
       let ro := match r with OOk _ => L [A 1] | OErr => L [A 0] | OPanic => L [A (-1)] end in
       let rest :=
